@@ -24,6 +24,8 @@ Clause ids (`what`):
   earlier_read_unchanged_by_later_read   a returned mapset still satisfies every clause after later reads (of the same text
                                  through the other entry points / of another file): results do not share state
   result_is_well_formed          the returned lists can be inspected at all (integer columns, float offsets)
+  read_again_after_editing_the_first_result   the same text read again AFTER the first result was edited in place satisfies every clause
+  read_file_of_a_path_that_held_another_file  read_file from a path whose earlier (longer / shorter / other) content was read before
 Files of the rarer comment families report one clause named after the family, whatever base clause broke
 (one root cause, one id):
   comment_after_note_row         a `//` comment after a note row (`1000  // here`) does not change the denotation
@@ -88,6 +90,22 @@ EXTRA_SM_KEYS = {
     "maniax-double": 8,
     "ds3ddx-single": 8,
     "para-single": 5,
+    # the remaining rows of StepMania 5's table (so that the set of chart types comes from the game's documentation of the
+    # format, not from the list of names the library happens to carry)
+    "pump-routine": 10,
+    "bm-versus5": 6,
+    "bm-double5": 12,
+    "bm-versus7": 8,
+    "ez2-single": 5,
+    "ez2-double": 10,
+    "techno-single4": 4,
+    "techno-single5": 5,
+    "techno-double4": 8,
+    "techno-double5": 10,
+    "maniax-single": 4,
+    "kickbox-quadarm": 4,
+    "kickbox-insect": 6,
+    "kickbox-arachnid": 8,
 }
 SM_KEYS_ALL = {**SM_KEYS, **EXTRA_SM_KEYS}
 
@@ -458,12 +476,12 @@ HEADER_ORDER = ("TITLE", "SUBTITLE", "ARTIST", "TITLETRANSLIT", "SUBTITLETRANSLI
 OPTIONAL_TAGS = ("SUBTITLE", "TITLETRANSLIT", "SUBTITLETRANSLIT", "ARTISTTRANSLIT", "GENRE", "LYRICSPATH", "CDTITLE", "DISPLAYBPM", "BGCHANGES", "FGCHANGES", "SAMPLELENGTH")
 FAMILIES = ("plain", "no_stops_tag", "row_comment", "comment_colon", "comment_semicolon", "comment_hash", "no_offset_tag", "timing_tag_order", "space_line_in_measure")
 # pools of the enrichment step of gen_spec (the grid files do not draw from them)
-BPM_EXTRA = ("30", "59.94", "999.999", "1000", "0.5", "0120.000000", "90.", "+150", "240.000")
-OFFSET_EXTRA = ("+0.500", "-.5", ".25", "600.125", "-59.999999", "000.250", "0.", "-0.0000001", "3.000000")
+BPM_EXTRA = ("30", "59.94", "999.999", "1000", "0.5", "0120.000000", "90.", "+150", "240.000", "0.05", "9999.5", "65536")
+OFFSET_EXTRA = ("+0.500", "-.5", ".25", "600.125", "-59.999999", "000.250", "0.", "-0.0000001", "3.000000", "-3600.5", "86400")
 TEXT_EXTRA = ("a\tb", "nb\u00a0sp", "夜\u3000明け\u301c", "ｆｕｌｌ\u3000ｗｉｄｔｈ！", "take #2", "ﾊﾝｶｸ", "= not a pair =", "100%,200%", "C# minor")
 DESC_EXTRA = ("K. Ohta, v2", "夜 #2", "ＥＸ", "a\tb", "x=y")
 RADAR_EXTRA = ("0.1,0.2,0.3,0.4,0.5,0.6,0.7,0.8,0.9,1.0", "0", "1.000000,0.500000,0.250000,0.125000,0.062500")
-METER_EXTRA = (0, 100, 9999)
+METER_EXTRA = (0, 100, 9999, -1, 2147483647)
 # tags that reamber does not know but StepMania 4/5 writes into .sm files: (tag, value)
 UNKNOWN_TAGS = (("KEYSOUNDS", ""), ("ATTACKS", ""), ("VERSION", "0.83"), ("ORIGIN", ""), ("TIMESIGNATURES", "0.000=4=4"), ("LABELS", "0.000=Song Start"), ("PREVIEW", "x.ogg"), ("LASTBEATHINT", ""), ("INSTRUMENTTRACK", ""), ("JACKET", "jk.png"))
 TIMING_TAGS = ("OFFSET", "BPMS", "STOPS")
@@ -831,6 +849,79 @@ def _by_family(family, fails):
     return [(FAMILY_CLAUSE[family], f"{len(fails)} clause(s) fail, first {fails[0][0]}: {fails[0][1]}")]
 
 
+def _edit_mapset(ms):
+    """Change a returned mapset in place through its public lists and fields (a step the library refuses is skipped: what an edit
+    does is not this property's business)."""
+    steps = [lambda: setattr(ms, "title", "edited"), lambda: setattr(ms, "artist", "edited"), lambda: setattr(ms, "offset", 98765.0), lambda: setattr(ms, "music", "edited.ogg"),
+             lambda: setattr(ms, "sample_start", 1.0), lambda: setattr(ms, "selectable", not ms.selectable)]
+    for m in ms.maps:
+        for kind in NOTE_KINDS:
+            steps.append(lambda m=m, kind=kind: setattr(getattr(m, kind), "offset", getattr(m, kind).offset + 321.5))
+            steps.append(lambda m=m, kind=kind: setattr(getattr(m, kind), "column", 0))
+        steps += [lambda m=m: setattr(m.holds, "length", m.holds.length * 3 + 1), lambda m=m: setattr(m.rolls, "length", m.rolls.length * 3 + 1),
+                  lambda m=m: setattr(m.bpms, "bpm", 77.0), lambda m=m: setattr(m.bpms, "offset", m.bpms.offset + 5.0),
+                  lambda m=m: setattr(m, "description", "edited"), lambda m=m: setattr(m, "chart_type", "edited-type"), lambda m=m: setattr(m, "difficulty", "Edited"),
+                  lambda m=m: setattr(m, "difficulty_val", 99), lambda m=m: m.groove_radar.append(9.0)]
+    steps.append(lambda: ms.maps.reverse())
+    steps.append(lambda: ms.maps.pop())
+    for st in steps:
+        try:
+            st()
+        except Exception:  # noqa
+            pass
+
+
+_PRIOR_SHORT = "#TITLE:prior;\n#OFFSET:1.5;\n#BPMS:0=99;\n#STOPS:;\n#NOTES:\n dance-single:\n prior:\n Hard:\n 9:\n 0,0,0,0,0:\n1000\n0100\n0010\n0001\n;\n"
+_PRIOR_CHART = "#NOTES:\n     dance-single:\n     prior {k}:\n     Edit:\n     {k}:\n     1,1,1,1,1:\n1111\nMMMM\n1001\n0110\n,\n2222\n0000\n3333\nKLFK\n;\n"
+
+
+def _read_file_on_a_used_path(text, how, then_text=None):
+    """read_file of `text` from a path that held ANOTHER file, itself read first: the text followed by six more charts (longer), a
+    one-chart file of 15 lines (shorter), or the case's second file (other)."""
+    from reamber.sm.SMMapSet import SMMapSet
+
+    prior = _PRIOR_SHORT if how == "reused_shorter" else then_text if how == "reused_other" and then_text else text.rstrip("\n") + "\n" + "".join(_PRIOR_CHART.format(k=k) for k in range(1, 7))
+    fd, path = tempfile.mkstemp(suffix=".sm")
+    os.close(fd)
+    try:
+        with open(path, "w", encoding="utf8", newline="") as f:
+            f.write(prior)
+        try:
+            SMMapSet.read_file(path)
+        except Exception:  # noqa  (the other file is not this case's business)
+            pass
+        with open(path, "w", encoding="utf8", newline="") as f:
+            f.write(text)
+        return SMMapSet.read_file(path)
+    finally:
+        os.unlink(path)
+
+
+def _second_read(case, text, d, ms):
+    """Dimensions 'state of the first result' and 'state of the file system': the text alone determines what a read returns."""
+    from reamber.sm.SMMapSet import SMMapSet
+
+    again = case.get("again")
+    if again == "edit":
+        what, why = "read_again_after_editing_the_first_result", "the first result was edited in place, then the same text was read again"
+        _edit_mapset(ms)
+        try:
+            ms2 = SMMapSet.read(text)
+        except Exception as ex:
+            return [(what, f"{why}: read raised {type(ex).__name__}: {ex}")]
+    else:
+        what, why = "read_file_of_a_path_that_held_another_file", f"the path held another file ({again}), which was read; then it was overwritten with this text and read"
+        try:
+            ms2 = _read_file_on_a_used_path(text, again, case.get("then_text") or (render(case["then_spec"]) if case.get("then_spec") else None))
+        except Exception as ex:
+            return [(what, f"{why}: read_file raised {type(ex).__name__}: {ex}")]
+    try:
+        bad = compare_read(ms2, d)
+    except Exception as ex:
+        bad = [("result_is_well_formed", f"{type(ex).__name__}: {ex}")]
+    return [(what, f"{why}: the result fails {bad[0][0]}: {bad[0][1]}")] if bad else []
+
+
 def run_read_case(case):
     """Real `SMMapSet.read` on the case's text against `den_sm`: [(what, detail)]."""
     from reamber.sm.SMMapSet import SMMapSet
@@ -924,6 +1015,8 @@ def run_read_case(case):
                 again = [("result_is_well_formed", f"{type(ex).__name__}: {ex}")]
             if again:
                 fails.append(("earlier_read_unchanged_by_later_read", f"after {' and '.join(later)} the first result fails {again[0][0]}: {again[0][1]}"))
+        if case.get("again") and not fails:
+            fails += _second_read(case, text, d, ms)
     return _by_family(family, fails)
 
 
@@ -976,7 +1069,8 @@ def sm_read_grid(rep):
         f"{len(points)} files: {len(CHART_TYPES)} chart types x {len(row_sets)} row-count choices for two measures "
         f"({'all pairs' if thorough else 'equal pairs'} from {list(ROW_COUNTS)}) x {len(GRID_LAYOUTS)} tempo layouts {list(GRID_LAYOUTS)} with a `#STOPS:;` tag, "
         f"plus {len(CHART_TYPES)} x {len(GRID_LAYOUTS)} files with 4-row measures and no #STOPS tag; every row of a measure with <= 48 rows carries an object, "
-        "every file has all of 1 2 3 4 M L F K, comments and blank lines; file content fixed by the grid coordinates"
+        "every file has all of 1 2 3 4 M L F K, comments and blank lines; file content fixed by the grid coordinates; every 10th file is read a second time after the first result "
+        "was edited in place, two of ten through read_file from a path that held another (longer / shorter) file which was read first"
     )
     rep.rule = "a case is one file; all are non-trivial (every symbol present, objects on every row)"
     done = 0
@@ -985,6 +1079,8 @@ def sm_read_grid(rep):
             break
         case = grid_case(typ, rows, lay, stops_tag)
         case["entry_points"] = done % 10 == 0
+        if done % 10 in (3, 5, 7):
+            case["again"] = {3: "reused_shorter", 5: "edit", 7: "reused_longer"}[done % 10]
         rep.case(dict(grid=case["grid"]), nontrivial=True)
         _record(rep, case, run_read_case(case))
         done += 1
@@ -1006,10 +1102,13 @@ def sm_read_random(rep):
         "';' on its own line 20%, no final newline / blank lines / a comment at the end 30%, blank lines / a comment before the first tag 15%, #NOTES fields on one line 20%, first row on the radar line 10%, blank lines made of spaces 15%; "
         "families: 71% plain (own-line // comments, `, // measure n`, blank lines), 8% without any #STOPS tag, 4% a // comment after a note row, 8% comment text containing ':' ';' or '#', "
         "3% without #OFFSET, 3% with #STOPS in front of #OFFSET or #BPMS, 3% blank lines made of spaces inside the note data; "
-        "every 10th file also through read(list of lines), SMMapSet().read, read_file(str), read_file(Path), read_file of the CRLF file; 12% followed by the read of another file, first result compared again"
+        "every 10th file also through read(list of lines), SMMapSet().read, read_file(str), read_file(Path), read_file of the CRLF file; 12% followed by the read of another file, first result compared again; "
+        "10% read a SECOND time after the first result was edited in place (offsets, columns, lengths, tempo, header fields, chart list), 15% read through read_file from a path that held another file "
+        "(the text plus six charts / a 15-line file / the case's other file), itself read first: the second result must satisfy every clause for the text; "
+        f"chart types: all {len(SM_KEYS_ALL)} rows of StepMania 5's StepsType table; bpm 0.05 .. 65536, offsets -3600.5 .. 86400 s, meters -1 and 2^31-1"
     )
     rep.rule = "a case is one file; non-trivial when it has a tempo change, a second chart or at least 4 different symbols"
-    fams = {}
+    fams, agains = {}, {}
     for i in range(N):
         if rep.out_of_time(40, 600):
             break
@@ -1021,10 +1120,15 @@ def sm_read_random(rep):
         case = dict(family=family, spec=gen_spec(rng, family), entry_points=i % 10 == 0)
         if rng.random() < 0.12:
             case["then_spec"] = gen_spec(rng, "plain")
+        x = rng.random()
+        if x < 0.25:
+            case["again"] = "edit" if x < 0.1 else "reused_longer" if x < 0.16 else "reused_shorter" if x < 0.21 else "reused_other"
+            agains[case["again"]] = agains.get(case["again"], 0) + 1
         fams[family] = fams.get(family, 0) + 1
         rep.case(case, nontrivial=_nontrivial(case["spec"]))
         _record(rep, case, run_read_case(case))
     rep.extra["families"] = fams
+    rep.extra["second reads"] = agains
 
 
 def _replay_read(case, what):
